@@ -38,6 +38,12 @@ def corpus(what):
         dict(base, dim=3, a=[0.0, -1.0, 2.0], b=[1.0, 1.0, 2.25], version=3, rebalancing=True, safety=0.0, steps=4, seed=7),
         dict(base, lmin=2, lmax=3, version=8, rebalancing=True, boundary=False, steps=5, seed=11),
     ]
+    # strongly graded trees: only the first interval of every dimension is split, step after step, so that lmax_d grows while
+    # the other subtrees stay shallow (large coarsening values: the regime where the version-specific subtraction values differ)
+    for dim, version, nst, bd in [(3, 6, 3, True), (3, 7, 3, False), (3, 8, 3, True), (2, 6, 4, True), (2, 7, 4, False),
+                                  (3, 2, 3, True), (3, 3, 3, False), (2, 8, 4, True)]:
+        bens = [[[[1, 1]] + [[0, 1]] * (3 + k) for _ in range(dim)] for k in range(nst)]
+        out.append(dict(base, dim=dim, version=version, boundary=bd, a=[0.0] * dim, b=[1.0] * dim, bens=bens))
     return out
 
 
